@@ -18,8 +18,11 @@ EXPLANATION = (
     "(thorough: 5) values and interprets the return term of _unique_inds on it: distinct values, each with exactly its "
     "positions. R4: a claimant row is marked only when its candidate is a member (== summed along the candidate axis, "
     "or isin) of the column's candidates not matched earlier; that record is extended with every column's matches; "
-    "the assignment vector is integer typed. Not decided: global injectivity of the greedy "
-    "column-by-column assignment; K=1 (scipy returns 1-D arrays).")
+    "the assignment vector is integer typed; the rows marked in the claim matrix are the rows whose candidates are "
+    "recorded. Global injectivity then follows by composition (R3: one row per candidate and column; R4: a candidate "
+    "recorded in one column is inadmissible in every later one, and everything marked is recorded; R2: a row's result "
+    "is the candidate of its single marked column). Not decided: K=1 (scipy returns 1-D arrays); that the "
+    "tree query itself honours k and the distance bound (trusted scipy).")
 RULE_TEXT = "one obligation per clause of the matcher"
 FLOORS = {'C17.R1': 2, 'C17.R2': 4, 'C17.R3': 1, 'C17.R4': 3}
 PINNED_EXPECT = [('C17.R1', 'emd.cycles._unique_inds', 'row space')]
@@ -393,7 +396,8 @@ def rule_admissible(ctx, rid):
          'candidates not matched in an earlier column'
     c2 = 'the matched candidates of a column are recorded for the following columns'
     c3 = 'the returned indices are integers'
-    res1 = res2 = res3 = None       # ('ok'|'bad'|'unknown', text)
+    res1 = res2 = res3 = res4 = None       # ('ok'|'bad'|'unknown', text)
+    c4 = 'every row marked for a column has its candidate recorded as matched'
     for e in exits:
         for ls in e.state.loops:
             if ls.kind != 'for':
@@ -421,6 +425,25 @@ def rule_admissible(ctx, rid):
                     for name, head in ls.head_env.items():
                         if head in carried and b.env.get(name) != head and name not in ('II',):
                             upd.append((name, head, b.env.get(name)))
+                    # composition: the rows marked in the claim matrix are the rows whose candidates are recorded
+                    for name, head in ls.head_env.items():
+                        newv = b.env.get(name)
+                        if head in carried and newv is not None and newv[0] == 'mut' and newv[1] in ('extend', 'append') and newv[3]:
+                            a_ = newv[3][0]
+                            if a_[0] == 'sub' and a_[2][0] == 'tuple' and len(a_[2][1]) == 2 and a_[2][1][1] == col:
+                                rows_rec = a_[2][1][0]
+                                marks_st = [f for f in b.effects if f[0] == 'setitem' and f[1] in carried and f[2][0] == 'tuple'
+                                            and len(f[2][1]) == 2 and f[2][1][1] == col and f[3] in (C(1), C(True))]
+                                if marks_st:
+                                    if marks_st[0][2][1][0] == rows_rec:
+                                        res4 = ('ok', 'claim matrix and record of matched candidates use the same rows')
+                                    elif rows_rec == idx:
+                                        # all claimants of the column (a superset of the marked rows: the marks are
+                                        # zero outside the claimants): over-recording only forgoes matches
+                                        res4 = ('ok', 'every claimant of the column is recorded (superset of the marked rows)')
+                                    else:
+                                        res4 = ('unknown', 'rows marked: %s; rows recorded: %s' % (show(marks_st[0][2][1][0])[:50],
+                                                                                                  show(rows_rec)[:50]))
                     used = {t for t in subterms(val) if t in carried}
                     if res1 and res1[0] == 'ok':
                         tracked = [u for u in upd if u[1] in used]
@@ -474,7 +497,9 @@ def rule_admissible(ctx, rid):
                             'not valid indices' % show(fin)[:60])
                 elif res3 is None:
                     res3 = ('unknown', 'allocation %s' % show(fin)[:60])
-    for c, r in ((c1, res1), (c2, res2), (c3, res3)):
+    for c, r in ((c1, res1), (c2, res2), (c3, res3), (c4, res4)):
+        if r is None and c is c4:
+            continue        # only claimed for the marking-loop form
         if r is None:
             ctx.undecided(rid, fi, c, 'construct not found')
         elif r[0] == 'ok':
